@@ -3,6 +3,7 @@
 package eng
 
 import (
+	"strconv"
 	"encoding/json"
 	"fmt"
 	"path/filepath"
@@ -396,6 +397,10 @@ var targetedC20 = []struct {
 	{"str-scopes", false, []string{"(def a 1) (def b 2) (def c 3)", "(let [x 1 y 2 z 3] (str (hash p:x q:y r:z)))"}},
 	{"package-print", false, []string{"(def p (package \"pp\" { A := 1; B := 2; C := 3; D := 4 }))", "(str p)", "p.A"}},
 	{"typelist", false, []string{"(len (typelist))", "(str (typelist))"}},
+	// what one run registers in the process-wide type registry (declared structs, the slice and pointer types derived
+	// from them) must not show in the next run of the same program
+	{"typelist-after-declarations", false, []string{"(def tn (len (typelist)))", "(struct Tl1 [(field p: (* Tl1)) (field q: ([]Tl1))])", "(def tv (Tl1))", "(str [tn (len (typelist))])"}},
+	{"names-after-declarations", false, []string{"(def before (defined? \"Nm1\"))", "(struct Nm1 [(field p: (* Nm1)) (field q: ([]int64))])", "(def nv (Nm1 q: [1 2]))", "(str [before (symnum (quote freshlyInterned)) (< (quote int64) (quote zzfresh))])"}},
 	{"struct-decl", false, []string{"(struct Car [(field Id: int64 e:0) (field Name: string e:1)])", "(def c (Car Id: 1 Name: \"x\"))", "(str c)", "(json c)", "(str (unjson (json c)))"}},
 	{"defmap-record", false, []string{"(defmap ranch)", "(def r (ranch a:1 b:2 c:3 d:4 e:5 f:6 g:7 h:8 i:9))", "(str r)", "(json r)", "(str (unjson (json r)))"}},
 	{"nested-demo", true, []string{"(def n (nestouter inner:(nestinner hello:\"hi\")))", "(str (togo n))", "(str n)"}},
@@ -481,6 +486,116 @@ func genC20Generated(r *kernel.RNG, tier string, i int) interface{} {
 	return sc
 }
 
+// genC20Others: the programs of the generators written for the other properties ("all programs ... of the generators
+// used for the other properties"): the ill-typed call lists of C01 (several things wrong in one call, so that which
+// error is reported first is a choice) and the hash histories of C14 rendered as scripts (constructors with repeated
+// keys, deletions, re-insertions), each observed through its printed form, key list and encodings
+func genC20Others(r *kernel.RNG, tier string, i int) interface{} {
+	var prog []string
+	name := ""
+	if i%3 == 2 {
+		// everything wrong at once: calls by name and constructions in which every argument has the wrong type or an
+		// unknown name, so that which complaint comes first is the implementation's choice - it must be the same choice
+		// every time
+		name = fmt.Sprintf("all-wrong-%d", i)
+		prog = append(prog,
+			"(func tf4 [a:int64 b:string c:bool d:float64] [n:int64] (return 1)) (func tf5 [x:string y:string z:string] [n:int64 e:error] (return 1 nil))",
+			"(struct Tw [(field A: int64 e:0) (field B: string e:1) (field C: float64 e:2) (field D: bool e:3)]) (defmap tmw)")
+		wrong := map[string][]string{"int64": {`"s"`, "2.5", "true", "[1]"}, "string": {"7", "2.5", "false", "(hash)"}, "bool": {"1", `"t"`, "[]"}, "float64": {`"f"`, "true", "(list 1)"}}
+		call := func(fn string, params []string, types []string, open, close string) string {
+			var parts []string
+			for _, j := range r.Perm(len(params)) {
+				if r.Chance(0.85) {
+					parts = append(parts, params[j]+":"+r.Pick(wrong[types[j]]))
+				}
+			}
+			for k := 0; k < r.Intn(3); k++ {
+				parts = append(parts, r.Pick([]string{"zz", "nosuch", "q9"})+":1")
+			}
+			if len(parts) > 0 && r.Chance(0.3) {
+				parts = append(parts, parts[0])
+			}
+			return open + fn + " " + strings.Join(parts, " ") + close
+		}
+		for k := 0; k < 10; k++ {
+			switch r.Intn(4) {
+			case 0:
+				prog = append(prog, call("tf4", []string{"a", "b", "c", "d"}, []string{"int64", "string", "bool", "float64"}, "(", ")"))
+			case 1:
+				prog = append(prog, call("tf5", []string{"x", "y", "z"}, []string{"int64", "int64", "int64"}, "(", ")"))
+			case 2:
+				prog = append(prog, call("Tw", []string{"A", "B", "C", "D"}, []string{"int64", "string", "float64", "bool"}, "(str (", "))"))
+			case 3:
+				prog = append(prog, call("hash", []string{"A", "B", "C", "D"}, []string{"int64", "string", "float64", "bool"}, "(str (", "))"))
+			}
+		}
+	} else if i%2 == 0 {
+		name = fmt.Sprintf("c01-calls-%d", i)
+		c := genC01Calls(r, tier, r.Intn(1200)).(*c01Scenario)
+		for _, t := range c.Texts {
+			skip := false
+			for _, ex := range c20Exclude {
+				if strings.Contains(t, ex) || strings.Contains(t, strings.TrimPrefix(ex, "(")+" ") && strings.HasPrefix(ex, "(") && strings.Contains(t, "quote "+strings.TrimPrefix(ex, "(")) {
+					skip = true
+				}
+			}
+			// (typelist prints the process-wide registry; it has its own targeted programs with stable names)
+			for _, ex := range []string{"gensym", "now", "random", "timeit", "millis", "sleep", "_closdump", "_ls", "dump", "pretty", "typelist"} {
+				if strings.Contains(t, ex) {
+					skip = true
+				}
+			}
+			if !skip {
+				prog = append(prog, "(str "+t+")")
+			}
+		}
+	} else {
+		name = fmt.Sprintf("c14-history-%d", i)
+		h := genHashScenario(r, tier, i).(*hashScenario)
+		src := func(k hkey) string {
+			switch k.Kind {
+			case "sym":
+				return "%" + k.Text
+			case "str":
+				return strconv.Quote(k.Text)
+			case "int", "chr", "arrN":
+				return k.Text
+			case "arr1":
+				return "[" + k.Text + "]"
+			case "symnum":
+				return "(symnum %" + k.Text + ")"
+			case "dotsym":
+				return "(quote " + k.Text + ")"
+			}
+			return "nil"
+		}
+		var sb strings.Builder
+		sb.WriteString("(def h (hash")
+		for j, ki := range h.Init {
+			fmt.Fprintf(&sb, " %s %d", src(h.Keys[ki]), 900+j)
+		}
+		sb.WriteString("))")
+		prog = append(prog, sb.String(), "(str h)")
+		for _, op := range h.Ops {
+			k := src(h.Keys[op.K])
+			switch op.Op {
+			case "hset":
+				prog = append(prog, fmt.Sprintf("(hset h %s %d)", k, op.V))
+			case "hdel":
+				prog = append(prog, fmt.Sprintf("(hdel h %s)", k))
+			case "hget", "hgetd":
+				prog = append(prog, fmt.Sprintf("(hget h %s 77)", k))
+			default:
+				prog = append(prog, "(str (keys h))")
+			}
+		}
+		prog = append(prog, "(str h)", "(str (keys h))", "(str (json h))", "(def acc []) (range k v h (set acc (append acc v))) (str acc)")
+	}
+	sc := &c20Scenario{Name: name, Program: prog, Budget: 500000}
+	sc.Orders, sc.History = genOrders(r, 4)
+	return sc
+}
+
 func shrinkC20(body json.RawMessage) []json.RawMessage {
 	var sc c20Scenario
 	if json.Unmarshal(body, &sc) != nil {
@@ -558,6 +673,7 @@ func init() {
 			{Name: "targeted", Count: cnt(len(targetedC20)*2, len(targetedC20)*12), Generate: genC20Targeted, Execute: execC20, Shrink: shrinkC20, Isolated: true},
 			{Name: "corpus", Count: cnt(100, 600), Generate: genC20Corpus, Execute: execC20, Shrink: shrinkC20, Isolated: true},
 			{Name: "generated", Count: cnt(150, 3000), Generate: genC20Generated, Execute: execC20, Shrink: shrinkC20, Isolated: true},
+			{Name: "other-generators", Count: cnt(80, 3000), Generate: genC20Others, Execute: execC20, Shrink: shrinkC20, Isolated: true},
 		},
 	})
 }
